@@ -129,7 +129,7 @@ class Model:
         self.unstable = set(unstable)  # names whose bytes differ from one generation to the next (C15's business)
 
     def expect(self):
-        """('ok' | 'missing' | 'crlf' | 'stale' | 'unknown', file): first problem in generated-name order.
+        """('ok' | 'missing' | 'crlf' | 'stale' | 'differs' | 'unknown', file): first problem in generated-name order.
         Files the generator itself does not reproduce byte for byte make a passing check undecidable ('unknown')."""
         uncertain = False
         for name in sorted(self.want, key=lambda s: s.encode("utf8")):
@@ -140,7 +140,8 @@ class Model:
                 continue
             if self.cur[name] != self.want[name]:
                 if uncertain:
-                    return "stale", name
+                    # an unstable file sorted earlier may be reported first: only the exit status is predictable
+                    return "differs", name
                 if _crlf_only(self.cur[name], self.want[name]):
                     return "crlf", name
                 return "stale", name
@@ -284,12 +285,35 @@ def _history(case, work, rng, nops):
         ctx = "after [%s] (step %d, op %s): model says %s%s; rc=%s stderr tail: %s" % (
             ",".join(seq[: step + 1]), step, applied, exp, (" at " + efile) if efile else "", rc, se.strip()[-300:])
         b = case["backend"]
+        if exp == "ok" and rc != 0:
+            # Is the reported file one the generator does not reproduce byte for byte (C15's business)?  Regenerate a few
+            # times into a scratch directory; if its bytes ever differ from the first generation it is unstable.
+            mm = re.search(r"not up to date: (.*)", se)
+            rel = os.path.relpath(mm.group(1).strip(), out) if mm else None
+            if rel in model.want and rel not in model.unstable and model.cur.get(rel) == model.want[rel]:
+                probe = os.path.join(work, "probe")
+                pbase = [case["backend"], case["src"], "--out-dir", probe] + base[4:]
+                for _ in range(10):
+                    shutil.rmtree(probe, ignore_errors=True)
+                    prc, pso, pse = cli.run_cli(pbase, cwd=cwd, timeout=300, env_extra={"RUST_BACKTRACE": "0"})
+                    res["processes"] += 1
+                    try:
+                        with open(os.path.join(probe, rel), "rb") as fh:
+                            same = fh.read() == model.want[rel]
+                    except OSError:
+                        same = True
+                    if prc == 0 and not same:
+                        model.unstable.add(rel)
+                        res["unstable_found_late"] = res.get("unstable_found_late", 0) + 1
+                        break
+                shutil.rmtree(probe, ignore_errors=True)
+                exp, efile = model.expect()
         if exp == "unknown":
             pass
         elif exp == "ok" and rc != 0:
             res["violations"].append(("check:fails-on-up-to-date-output", ctx))
         elif exp != "ok" and rc == 0:
-            res["violations"].append(("check:succeeds-on-%s-file" % {"missing": "missing", "crlf": "crlf-different", "stale": "different"}.get(exp, exp), ctx))
+            res["violations"].append(("check:succeeds-on-%s-file" % {"missing": "missing", "crlf": "crlf-different", "stale": "different", "differs": "different"}.get(exp, exp), ctx))
         elif exp == "crlf":
             # the only kind of difference anywhere?  then the message must say so
             only_crlf = not model.unstable and all(
